@@ -2,7 +2,6 @@
    other, and see the installed versions only through the function a lookup form induces. *)
 From V.model Require Import Base RelLex RelParse DebVersion Sat.
 From V.proofs Require Import BaseP DebVersionP.
-Set Default Timeout 30.
 
 (* ------------------------------------------------------------------ strings *)
 Lemma str_eqb_eq (a b : str) : str_eqb a b = true <-> a = b.
